@@ -1,8 +1,8 @@
 """C03 -- no input can make decoding panic, corrupt memory or hang.
 
-proof      : coq/props/C03.v (what is closed: memory safety of the window for all operation sequences (from C04),
-             in-range state transitions of FSE tables (from C12), block-size and buffer invariants for all inputs (from
-             C05), termination of the block / slice / multi-frame / streaming loops; see the file for what is partial)
+proof      : coq/props/C03.v (headline C03_no_history_of_calls_panics: no history of entry-point calls on arbitrary byte
+             strings makes the decoder model panic or run out of fuel; assembled from per-layer totality theorems under
+             the scratch-space invariant; plus window memory safety (C04), FSE ranges (C12), block invariants (C05))
 tie check  : structure-aware corruptions of valid frames, random byte strings and hostile dictionaries through every
              entry point, implementation (debug AND release builds) and extracted model: outcome classes must agree
 oracle     : no panic, no timeout in the implementation; after an error the decoder can be reset and used again
